@@ -87,6 +87,22 @@ def allowed_locs(I, fc, entry_env, old_heap):
     I.spec_depth += 1
     try:
         for loc in fc.modifies:
+            if loc.endswith(".**"):
+                # every container reachable from the value (nested lists / dicts)
+                v0 = I.eval(ast.parse(loc[:-3], mode="eval").body)
+                stack = [v0]
+                while stack:
+                    v = stack.pop()
+                    for alt in (v.alts if isinstance(v, VUnion) else [(None, v)]):
+                        x = alt[1]
+                        if x.tag in ("list", "dict", "set") and (x.ref, "$") not in allowed:
+                            allowed.add((x.ref, "$"))
+                            c = old_heap.data.get((x.ref, "$"))
+                            if isinstance(c, (LConc, SConc)):
+                                stack.extend(c.items)
+                            elif isinstance(c, DConc):
+                                stack.extend(vv for _, vv in c.entries)
+                continue
             star = loc.endswith(".*")
             l2 = loc[:-2] if star else loc
             node = ast.parse(l2, mode="eval").body
